@@ -41,7 +41,39 @@ ASSUME = ["the background run is one transition of the model, parameterised by w
           "rayon work distribution is abstracted to 'any order'; the sort is the unique sorted permutation (C18)"]
 
 
+def distribution(lines):
+    """what the generated histories contain: events by kind, ticks by (hold kind, a run parked before, parked after, reported status),
+    restarts by clear flag, pool sizes, columns, history lengths"""
+    from collections import Counter
+    ev, ticks, restarts, pools, cols, lens, status = Counter(), Counter(), Counter(), Counter(), Counter(), Counter(), Counter()
+    for l in lines:
+        if not l.startswith("H "):
+            continue
+        f = dict(w.split("=", 1) for w in l.split()[1:] if "=" in w)
+        pools[f.get("pool", "?")] += 1
+        cols[f.get("cols", "?")] += 1
+        events = f.get("ev", "").split(";")
+        lens[min(len(events) // 10 * 10, 60)] += 1
+        for e in events:
+            head = e.split("|", 1)[0]
+            kind = head.split(":", 1)[0].split("=", 1)[0]
+            ev[kind] += 1
+            if kind == "tick":
+                parts = head.split("=")[0].split(":")
+                ret = head.split("=")[-1] if "=" in head else "?"
+                if len(parts) >= 4:
+                    ticks[f"hold{parts[1]}/parked_before{parts[2]}/parked_after{parts[3]}"] += 1
+                status[f"changed{ret[:1]}/running{ret[1:2]}"] += 1
+            elif kind == "restart":
+                restarts["clear" if head.endswith(":1") else "keep"] += 1
+            elif kind == "reparse":
+                st = head.split("=")[-1]
+                status["reparse->" + {"0": "unchanged", "1": "update", "2": "rescore"}.get(st, st)] += 1
+    return dict(histories=sum(pools.values()), pool_threads=dict(pools), columns=dict(cols), events_per_history_bucket=dict(lens),
+                events=dict(ev), ticks=dict(ticks), tick_status_and_reparse_status=dict(status), restarts=dict(restarts))
+
+
 def run_check(ctx):
-    return core.simple_check(ctx, jobs, RULE, nontrivial, describe=describe, known_filter=findings.matcher_known(ctx.pid),
+    return core.simple_check(ctx, jobs, RULE, nontrivial, describe=describe, known_filter=findings.matcher_known(ctx.pid), distribution=distribution,
                              correspondence="Model/Nucleo.lean (Nucleo.tick, tickInnerLocked/Timeout, restart, Worker.run) ~ src/lib.rs + src/worker.rs",
                              assumptions=ASSUME, sample_filter=lambda l: l.startswith("H ") and len(l) < 1200)
